@@ -306,6 +306,8 @@ impl ClientVaultStorage for ClientDatabaseStorage {
             vault,
         )
         .await?;
+        #[cfg(sos_verif)]
+        sos_core::verif_hooks::probe("db_storage.write_vault.committed");
         Ok(encode(vault).await?)
     }
 
@@ -320,6 +322,10 @@ impl ClientVaultStorage for ClientDatabaseStorage {
             vault,
         )
         .await?;
+        #[cfg(sos_verif)]
+        sos_core::verif_hooks::probe(
+            "db_storage.write_login_vault.committed",
+        );
         Ok(encode(vault).await?)
     }
 
@@ -336,6 +342,8 @@ impl ClientVaultStorage for ClientDatabaseStorage {
             })
             .await
             .map_err(sos_database::Error::from)?;
+        #[cfg(sos_verif)]
+        sos_core::verif_hooks::probe("db_storage.remove_vault.committed");
         Ok(())
     }
 
